@@ -127,7 +127,8 @@ func c14Check(ci interface{}) lib.Outcome {
 	cl, _ := c14Populate(c)
 	var mu sync.Mutex
 	firstBad := ""
-	sameKeyOK, sameKeyCalls := 0, 0
+	// per-goroutine counters, summed after the batch: the harness itself must not synchronise the goroutines
+	sameKeyOKs, sameKeyCallsN := make([]int, len(c.Ops)), make([]int, len(c.Ops))
 	var wg sync.WaitGroup
 	start := make(chan struct{})
 	for g, ops := range c.Ops {
@@ -151,12 +152,10 @@ func c14Check(ci interface{}) lib.Outcome {
 				case "add-same-key":
 					// several goroutines register the same new key: sequentially exactly one such call succeeds
 					err := cl.AddValue("contended-key", strings.Repeat(fmt.Sprintf("zzcontended%dq%d ", g, step), 400))
-					mu.Lock()
-					sameKeyCalls++
+					sameKeyCallsN[g]++
 					if err == nil {
-						sameKeyOK++
+						sameKeyOKs[g]++
 					}
-					mu.Unlock()
 				case "add":
 					// new keys whose words are disjoint from every query
 					cl.AddValue(fmt.Sprintf("extra-%d-%d", g, step), strings.Repeat(fmt.Sprintf("zzunrelated%dq%d ", g, step), 30))
@@ -175,6 +174,11 @@ func c14Check(ci interface{}) lib.Outcome {
 	wg.Wait()
 	if firstBad != "" {
 		return lib.Outcome{Violation: firstBad}
+	}
+	sameKeyOK, sameKeyCalls := 0, 0
+	for g := range c.Ops {
+		sameKeyOK += sameKeyOKs[g]
+		sameKeyCalls += sameKeyCallsN[g]
 	}
 	// afterwards, sequentially: whatever the concurrent phase left behind must not show in later calls
 	for i := range queries {
